@@ -419,3 +419,30 @@ func H_C06_overwrite_equal_scalar() {
 	verifAssert(o.Count() == 1 && o.TypeOf(k) == TypeFloat && verifFloatBits(o.GetFloat(k)) == verifFloatBits(g), "Set overwrites with the last pair winning / Merge prefers the argument's value (the value written, bit for bit)")
 	verifReach("end")
 }
+
+// keys of several bytes, any of which may be a path character, a quote or a non-ASCII byte: a key is an
+// opaque string for Set/Get/KeyExists/Unset/Pluck/KeyOf, never a path
+func H_C06_keys_of_several_bytes() {
+	verifBound("KEYBYTES", 2)
+	k := hBytesStr(2)
+	x := nondetInt()
+	inner := NewObject("x", 1)
+	o := NewObject("a", 1, "n", inner)
+	ret := o.Set(k, x)
+	verifAssert(ret == o, "Set returns the object")
+	verifAssert(o.Count() == 3 && o.KeyExists(k) && o.TypeOf(k) == TypeInt && o.GetInt(k) == x && o.GetInt("a") == 1 && o.Get("n") == any(inner) && inner.Count() == 1,
+		"after one operation every live object shows what the map model predicts")
+	ks := o.Keys()
+	found := 0
+	for i := 0; i < ks.Count(); i++ {
+		if ks.GetString(i) == k {
+			found++
+		}
+	}
+	verifAssert(ks.Count() == 3 && found == 1 && len(o.Dict()) == 3 && o.Dict()[k] == any(x), "Keys/Values/Dict/Count always describe the same field set")
+	pl := o.Pluck(k)
+	verifAssert(pl.Count() == 1 && pl.GetInt(k) == x, "Pluck keeps exactly the requested keys")
+	o.Unset(k)
+	verifAssert(o.Count() == 2 && !o.KeyExists(k) && o.KeyExists("a") && o.Get("n") == any(inner), "after two operations every live object shows what the map model predicts")
+	verifReach("end")
+}
